@@ -166,7 +166,7 @@ func c17RD(i int) bgp.RouteDistinguisherInterface {
 	return bgp.NewRouteDistinguisherTwoOctetAS(65000, uint32(100+i))
 }
 
-var c17Pfx = []string{"10.1.0.0/24", "10.1.1.0/24", "10.2.0.0/24", "10.2.1.0/24", "10.3.0.0/16", "10.3.1.0/24", "10.4.4.0/24", "10.5.5.0/24"}
+var c17Pfx = []string{"10.1.0.0/24", "10.1.1.0/24", "10.2.0.0/24", "10.2.1.0/24", "10.3.0.0/16", "10.3.1.0/24", "10.4.4.0/24", "10.5.5.0/24", "10.6.6.0/24"}
 
 func c17VpnNlri(rd, pfx int, label uint32) bgp.NLRI {
 	n, _ := bgp.NewLabeledVPNIPAddrPrefix(netip.MustParsePrefix(c17Pfx[pfx]), *bgp.NewMPLSLabelStack(label), c17RD(rd))
@@ -293,6 +293,7 @@ type c17World struct {
 	ann     map[string]*c17Live    // "src/pid/rd/pfx" -> live announcement from a PE source
 	ceAnn   map[string]*c17Live    // "ce/pfx"
 	green   bool
+	greenPath *c17Live // the route added to VRF "green" through the API
 	memCode []map[[2]uint64]bool // per observer: (key, origin AS) as rtmSet keeps them (the length is not part of its key)
 	hadPartial []bool            // per observer: a partial-length membership was withdrawn through a twin key
 	susp    []bool               // per observer: advertisement suppressed (local speaker restarting)
@@ -643,6 +644,9 @@ func (cw *c17World) checkLocalRtm(after string, hist *[]string) {
 
 func (cw *c17World) checkViews(after string, hist *[]string) {
 	cw.checkLocalRtm(after, hist)
+	if after != "" {
+		cw.checkVrfInfo(after, hist)
+	}
 	bests := cw.w.s.globalRib.GetBestPathList(table.GLOBAL_RIB_NAME, 0, []bgp.Family{bgp.RF_IPv4_VPN})
 	for i, p := range cw.obs {
 		if !p.up {
@@ -1151,7 +1155,57 @@ func (cw *c17World) do(ev c17Ev, hist *[]string) {
 			o.fail("vrf-add", err.Error())
 		}
 		o.stat("vrf_add", 1)
+		o.ask("ok", "vrf 3 3 0 %s 0", c17ECList([]bgp.ExtendedCommunityInterface{c17EC(0, 1, true), c17EC(0, 4, true)}))
 		cw.flushAll(cw.noVpn(desc), cw.noPlain(desc))
+		cw.checkNoOriginated(desc, hist)
+	case "vrfpath":
+		// a route added to the VRF "green" through the API (AddPath with the VRF id): exported with
+		// its RD; another PE may announce the same RD:prefix with a higher or lower LOCAL_PREF
+		if !cw.green {
+			return
+		}
+		cw.marker++
+		pref := 115 + ev.lpr*64
+		n, _ := bgp.NewIPAddrPrefix(netip.MustParsePrefix(c17Pfx[8]))
+		nh, _ := bgp.NewPathAttributeNextHop(netip.MustParseAddr("0.0.0.0"))
+		attrs := []bgp.PathAttributeInterface{bgp.NewPathAttributeOrigin(0), nh, bgp.NewPathAttributeLocalPref(uint32(pref)),
+			bgp.NewPathAttributeCommunities([]uint32{0xfffe0000 | uint32(cw.marker)})}
+		ap, err := apiutil.NewPath(bgp.RF_IPv4_UC, n, false, attrs, time.Now())
+		if err != nil {
+			t := err.Error()
+			o.fail("vrf-add-path", t)
+			return
+		}
+		up, err := api2apiutilPath(ap)
+		if err != nil {
+			o.fail("vrf-add-path", err.Error())
+			return
+		}
+		def := fmt.Sprintf("0 0 3 8 0 %d %d 0", pref, cw.marker)
+		o.op("path %d %d %s", cw.marker, cw.marker, def)
+		o.op("upd %d 0", cw.marker)
+		cw.greenPath = &c17Live{marker: cw.marker, uid: cw.marker, def: def}
+		desc = fmt.Sprintf("vrf-add-path green %s lp=%d marker=%d", c17Pfx[8], pref, cw.marker)
+		*hist = append(*hist, desc)
+		if _, err := w.s.AddPath(apiutil.AddPathRequest{VRFID: "green", Paths: []*apiutil.Path{up}}); err != nil {
+			o.fail("vrf-add-path", err.Error())
+		}
+		o.stat("vrf_add_path", 1)
+		cw.flushAll(askObs, askCE)
+		// oracle: exported under the VRF's RD
+		found := false
+		for _, p := range w.s.globalRib.GetPathList(table.GLOBAL_RIB_NAME, 0, []bgp.Family{bgp.RF_IPv4_VPN}) {
+			if int(vwMarker(p.GetPathAttrs())) == cw.marker {
+				found = true
+				vn := p.GetNlri().(*bgp.LabeledVPNIPAddrPrefix)
+				if vn.RD.String() != c17RD(3).String() || !p.IsLocal() {
+					o.fail("vrf-export", map[string]any{"after": desc, "nlri": vn.String()})
+				}
+			}
+		}
+		if !found {
+			o.fail("vrf-export", map[string]any{"after": desc, "what": "route not in the global VPN table"})
+		}
 	case "delvrf":
 		if !cw.green {
 			return
@@ -1159,13 +1213,114 @@ func (cw *c17World) do(ev c17Ev, hist *[]string) {
 		cw.green = false
 		desc = "delvrf green"
 		*hist = append(*hist, desc)
+		localBefore := cw.originated()
+		if len(localBefore) > 0 {
+			if b := w.s.globalRib.GetBestPathList(table.GLOBAL_RIB_NAME, 0, []bgp.Family{bgp.RF_IPv4_VPN}); true {
+				isBest := false
+				for _, p := range b {
+					if p.IsLocal() && int(vwMarker(p.GetPathAttrs())) == localBefore[0] {
+						isBest = true
+					}
+				}
+				if !isBest {
+					o.stat("vrf_delete_originated_route_not_best", 1)
+				}
+			}
+		}
 		if err := w.s.DeleteVrf(context.Background(), &api.DeleteVrfRequest{Name: "green"}); err != nil {
 			o.fail("vrf-delete", err.Error())
 		}
 		o.stat("vrf_delete", 1)
-		cw.flushAll(cw.noVpn(desc), cw.noPlain(desc))
+		// the routes originated in the VRF that DeleteVrf took out of the global table
+		gone := []string{}
+		after := map[int]bool{}
+		for _, m := range cw.originated() {
+			after[m] = true
+		}
+		for _, m := range localBefore {
+			if !after[m] {
+				gone = append(gone, fmt.Sprint(m))
+			}
+		}
+		o.ask(c17Join2(gone), "delvrfpaths 3")
+		cw.greenPath = nil
+		if len(localBefore) > 0 {
+			cw.flushAll(askObs, askCE)
+		} else {
+			cw.flushAll(cw.noVpn(desc), cw.noPlain(desc))
+		}
+		cw.checkNoOriginated(desc, hist)
 	}
 	cw.checkViews(desc, hist)
+}
+
+// originated: markers of the locally originated routes under the RD of VRF "green" in the global table
+func (cw *c17World) originated() []int {
+	var out []int
+	for _, p := range cw.w.s.globalRib.GetPathList(table.GLOBAL_RIB_NAME, 0, []bgp.Family{bgp.RF_IPv4_VPN}) {
+		if vn := p.GetNlri().(*bgp.LabeledVPNIPAddrPrefix); p.IsLocal() && vn.RD.String() == c17RD(3).String() {
+			out = append(out, int(vwMarker(p.GetPathAttrs())))
+		}
+	}
+	sort.Ints(out)
+	return out
+}
+
+// checkNoOriginated: after the VRF was deleted, and when it is created again, no route originated in
+// it may be in the global table, whatever its rank in its destination was
+func (cw *c17World) checkNoOriginated(after string, hist *[]string) {
+	if l := cw.originated(); len(l) > 0 {
+		cw.o.fail("vrf-delete-originated-route-survives", map[string]any{"after": after, "locally originated routes under the VRF's RD": fmt.Sprint(l),
+			"history": append([]string{}, *hist...)})
+	}
+}
+
+// checkVrfInfo: GetTable(TABLE_TYPE_VRF) must count what the VRF's view holds: the importable paths
+// and the destinations having one
+func (cw *c17World) checkVrfInfo(after string, hist *[]string) {
+	vrfs := append([]c17VrfDef{}, cw.vrfs...)
+	if cw.green {
+		vrfs = append(vrfs, c17VrfDef{id: 3, name: "green", rd: 3, imp: []bgp.ExtendedCommunityInterface{c17EC(0, 1, true), c17EC(0, 4, true)}})
+	}
+	paths := cw.w.s.globalRib.GetPathList(table.GLOBAL_RIB_NAME, 0, []bgp.Family{bgp.RF_IPv4_VPN})
+	for _, v := range vrfs {
+		perDest := map[string][2]int{}
+		for _, p := range paths {
+			c := perDest[p.GetNlri().String()]
+			c[1]++
+			if cw.importable(v, p.GetExtCommunities()) {
+				c[0]++
+			}
+			perDest[p.GetNlri().String()] = c
+		}
+		wantD, wantP := 0, 0
+		for _, c := range perDest {
+			if c[0] > 0 {
+				wantD++
+				wantP += c[0]
+				if c[0] < c[1] {
+					cw.o.stat("vrf_info_destination_with_imported_and_foreign_paths", 1)
+				}
+			}
+		}
+		r, err := cw.w.s.GetTable(context.Background(), &api.GetTableRequest{TableType: api.TableType_TABLE_TYPE_VRF, Family: c17Fam(bgp.RF_IPv4_UC), Name: v.name})
+		if err != nil {
+			cw.o.fail("vrf-info", err.Error())
+			continue
+		}
+		cw.o.ask(fmt.Sprintf("%d %d", r.NumDestination, r.NumPath), "vinfo %d", v.id)
+		if int(r.NumDestination) != wantD || int(r.NumPath) != wantP {
+			cw.o.fail("vrf-info", map[string]any{"after": after, "vrf": v.name, "GetTable.NumDestination": r.NumDestination, "GetTable.NumPath": r.NumPath,
+				"destinations with an imported path": wantD, "imported paths": wantP, "history": append([]string{}, *hist...)})
+		}
+	}
+}
+
+func c17Join2(l []string) string {
+	if len(l) == 0 {
+		return "-"
+	}
+	return strings.Join(l, " ")
 }
 
 func c17Keys(m map[string]*c17Live) []string {
@@ -1255,6 +1410,9 @@ func c17GenEv(r *vRand, cw *c17World) c17Ev {
 		}
 		rd := 5 + r.intn(3)
 		pfx := (rd-5)*2 + r.intn(2)
+		if r.chance(8) {
+			rd, pfx = 3, 8 // another PE using the RD of VRF "green" for the prefix added to it through the API
+		}
 		if rd == 6 && r.chance(35) {
 			pfx = 0 // the dual-homed site: the same prefix under the RDs of two PEs
 		}
@@ -1318,7 +1476,10 @@ func c17GenEv(r *vRand, cw *c17World) c17Ev {
 			return c17Ev{kind: "cesoftin", peer: r.intn(2)}
 		}
 		return c17Ev{kind: "bounce", peer: r.intn(2)}
-	case x < 98:
+	case x < 97:
+		if r.chance(50) {
+			return c17Ev{kind: "vrfpath", lpr: r.intn(6)}
+		}
 		return c17Ev{kind: "addvrf"}
 	}
 	return c17Ev{kind: "delvrf"}
@@ -1439,6 +1600,12 @@ func c17CorpusSrv(t testing.TB, o *vOut) {
 		{{kind: "ann", peer: 0, rd: 5, pfx: 1, ecs: ecs(X)}, {kind: "ann", peer: 1, rd: 6, pfx: 2, ecs: ecs(Y)},
 			{kind: "mem", peer: 0, rt: X, as: 65000, memLen: 64}, {kind: "mem", peer: 0, rt: X, as: 65000, memLen: 64, memWd: true}},
 	}
+	gr = append(gr,
+		// what remains after a VRF is removed (seeded change C17-R) and what is reported for it (C17-Q): the
+		// route added to the VRF is the runner-up behind another PE's route for the same RD:prefix
+		[]c17Ev{{kind: "addvrf"}, {kind: "mem", peer: 0, as: 0}, {kind: "vrfpath", lpr: 0},
+			{kind: "ann", peer: 0, rd: 3, pfx: 8, lpr: 3, ecs: ecs(Z)}, {kind: "ann", peer: 1, rd: 5, pfx: 1, lpr: 1, ecs: ecs(X)}, {kind: "ann", peer: 0, rd: 5, pfx: 1, lpr: 3, ecs: ecs(Z)},
+			{kind: "delvrf"}, {kind: "wd", peer: 0, rd: 3, pfx: 8}, {kind: "addvrf"}, {kind: "vrfpath", lpr: 5}, {kind: "delvrf"}, {kind: "addvrf"}})
 	for _, c := range gr {
 		cw := c17NewWorld(t, o)
 		hist := []string{}
